@@ -22,10 +22,14 @@ from prompt_toolkit.layout import Layout
 from prompt_toolkit.layout.containers import ScrollOffsets, Window
 from prompt_toolkit.layout.controls import BufferControl
 from prompt_toolkit.layout.margins import NumberedMargin
+from prompt_toolkit.data_structures import Point
 from prompt_toolkit.layout.mouse_handlers import MouseHandlers
-from prompt_toolkit.layout.processors import (AfterInput, BeforeInput, PasswordProcessor,
-                                              ShowLeadingWhiteSpaceProcessor,
-                                              ShowTrailingWhiteSpaceProcessor, TabsProcessor)
+from prompt_toolkit.mouse_events import MouseButton, MouseEvent, MouseEventType
+from prompt_toolkit.layout.processors import (AfterInput, BeforeInput, ConditionalProcessor, DummyProcessor,
+                                              DynamicProcessor, HighlightMatchingBracketProcessor,
+                                              HighlightSearchProcessor, HighlightSelectionProcessor,
+                                              PasswordProcessor, ShowLeadingWhiteSpaceProcessor,
+                                              ShowTrailingWhiteSpaceProcessor, TabsProcessor, merge_processors)
 from prompt_toolkit.layout.screen import Char, Screen, WritePosition
 from prompt_toolkit.output import DummyOutput
 from prompt_toolkit.utils import get_cwidth
@@ -33,81 +37,163 @@ from prompt_toolkit.utils import get_cwidth
 ID = "C11"
 DRIVER = "drv_c11"
 PROPS = ["Ptk.Props.C11Scroll", "Ptk.Props.C11Copy", "Ptk.Props.C11Lines", "Ptk.Props.C11Window",
-         "Ptk.Props.C11Rows", "Ptk.Props.C11Procs", "Ptk.Props.C11Doc", "Ptk.Props.C11Exact", "Ptk.Props.C11"]
+         "Ptk.Props.C11Rows", "Ptk.Props.C11Procs", "Ptk.Props.C11Doc", "Ptk.Props.C11Exact",
+         "Ptk.Props.C11Gen", "Ptk.Props.C11WrapGen", "Ptk.Props.C11Wide", "Ptk.Props.C11Mouse",
+         "Ptk.Props.C11Margin", "Ptk.Props.C11"]
 ANCHORS = ["src/prompt_toolkit/layout/containers.py", "src/prompt_toolkit/layout/controls.py",
            "src/prompt_toolkit/layout/processors.py", "src/prompt_toolkit/layout/margins.py",
            "src/prompt_toolkit/layout/screen.py", "src/prompt_toolkit/utils.py"]
+# the functions whose bodies Ptk/Model/C11.lean follows line by line AND the correspondence exercises
+MODELLED = {
+    "src/prompt_toolkit/layout/containers.py": [
+        "WindowRenderInfo.displayed_lines",
+        "Window._write_to_screen_at_index", "Window._write_to_screen_at_index.mouse_handler",
+        "Window._copy_body", "Window._copy_body.copy_line", "Window._copy_body.copy",
+        "Window._copy_body.cursor_pos_to_screen_pos", "Window._copy_margin",
+        "Window._scroll", "Window._scroll_when_linewrapping", "Window._scroll_when_linewrapping.get_line_height",
+        "Window._scroll_when_linewrapping.get_min_vertical_scroll",
+        "Window._scroll_when_linewrapping.get_max_vertical_scroll",
+        "Window._scroll_when_linewrapping.get_topmost_visible",
+        "Window._scroll_without_linewrapping", "Window._scroll_without_linewrapping.do_scroll"],
+    "src/prompt_toolkit/layout/controls.py": [
+        "UIContent.get_height_for_line", "BufferControl._create_get_processed_line_func.transform",
+        "BufferControl.create_content", "BufferControl.create_content.translate_rowcol",
+        "BufferControl.create_content.get_line", "BufferControl.mouse_handler"],
+    "src/prompt_toolkit/layout/processors.py": [
+        "DummyProcessor.apply_transformation", "PasswordProcessor.apply_transformation",
+        "BeforeInput.apply_transformation", "AfterInput.apply_transformation",
+        "ShowLeadingWhiteSpaceProcessor.apply_transformation", "ShowTrailingWhiteSpaceProcessor.apply_transformation",
+        "TabsProcessor.apply_transformation", "TabsProcessor.apply_transformation.source_to_display",
+        "TabsProcessor.apply_transformation.display_to_source",
+        "ConditionalProcessor.apply_transformation", "DynamicProcessor.apply_transformation", "merge_processors",
+        "_MergedProcessor.apply_transformation", "_MergedProcessor.apply_transformation.source_to_display",
+        "_MergedProcessor.apply_transformation.display_to_source"],
+    "src/prompt_toolkit/layout/margins.py": ["NumberedMargin.get_width", "NumberedMargin.create_margin"],
+    "src/prompt_toolkit/layout/screen.py": ["Char.__init__", "get_display_width"],
+    "src/prompt_toolkit/document.py": ["Document.translate_row_col_to_index"],
+}
 TECHNIQUE = "machine-checked proof (Lean 4) over an executable model + differential correspondence + property oracle"
-LEVEL_TEXT = ("Lean 4 theorems over an executable model of rendering a focused text window (processors' position "
-              "maps, BufferControl content with the trailing blank, get_height_for_line, both scroll algorithms, "
-              "Window._copy_body with wrapping / prefixes / horizontal scroll): after every render, for every "
-              "previous scroll state, the cursor cell is drawn inside the window on the cursor's character and the "
-              "rows are consecutive document lines (width-1 cells); tab / BeforeInput / merged position maps round "
-              "trip and are monotone; tied to /repo on every run by a differential correspondence on the real "
-              "Window(BufferControl) rendered into a Screen (exhaustive small scope + random histories) and by the "
-              "property oracle")
-LEVEL_NOTE = ("trusted: Lean kernel, axioms propext/Classical.choice/Quot.sound only; the hand-written model "
-              "(validated by the correspondence, not proved equal to the Python); window_size / 2 is exact in IEEE "
-              "double for |window_size| < 2^53; wide / zero-width / control characters are correspondence-only")
-RULE = ("exhaustive: every text over {a, newline} (and tab when a TabsProcessor is configured) up to the tier's length bound x content widths 1..4 x heights "
-        "1..3 x wrapping on/off x a fixed list of window configurations (scroll offsets, previous scroll state, line "
-        "prefixes of constant and varying width, numbered margin, Tabs/BeforeInput/AfterInput/Password processors), "
-        "each case rendering ALL cursor positions one after the other through ONE window (scroll state carries "
-        "over); then seeded random histories (1-8 states, lines of length k*w-1, k*w, k*w+1, up to 12 lines, "
-        "widths 1..9, heights 1..5, window size and wrap mode changing between states), a wide / zero-width "
-        "sub-domain and a raw control character sub-domain; a case is non-trivial when some state has to scroll "
-        "(text longer than one window row or more lines than the height)")
+LEVEL_TEXT = ("Lean 4 theorems over an executable model of rendering a focused text window (position maps of Tabs / "
+              "BeforeInput / AfterInput / Password / ShowLeading- and ShowTrailingWhiteSpace / restyling / Conditional / "
+              "Dynamic / nested merged processors, BufferControl content with the trailing blank, get_height_for_line, "
+              "both scroll algorithms incl. get_vertical_scroll / get_horizontal_scroll callbacks, Window._copy_body with "
+              "wrapping / prefixes / horizontal scroll for arbitrary cell widths, NumberedMargin rows, the window's mouse "
+              "handler and BufferControl.mouse_handler): after every render, for every previous scroll state, the cursor "
+              "cell is drawn inside the window on the cursor's character -- for one-column cells in both wrap modes, for "
+              "double-width / zero-width / control characters WITHOUT wrapping for all inputs, WITH wrapping whenever every "
+              "displayed line up to the cursor has one-column cells or does not wrap (the exact complement is the known "
+              "finding, witnessed in Lean and on the real code); the rows shown are consecutive document lines and the "
+              "margin numbers are exactly those rows; the position maps of ANY list of processors with monotone "
+              "round-tripping maps compose (n-ary law, nesting = flattening) and the replacing processors keep lengths; a "
+              "click on a drawn cell maps back to its (row, col) and a click on the cursor cell back to the cursor index; "
+              "tied to /repo on every run by regenerated tables and pinned behavioural probes, a differential "
+              "correspondence on the real Window(BufferControl) rendered into a Screen with real MouseHandlers "
+              "(exhaustive small scope + random histories) and by the property oracle")
+LEVEL_NOTE = ("trusted: Lean kernel, axioms propext/Classical.choice/Quot.sound only; the hand-written model (validated "
+              "by the correspondence, not proved equal to the Python); window_size / 2 is exact in IEEE double for "
+              "|window_size| < 2^53; the theorems for wide / zero-width / control characters hold for EVERY width function "
+              "with dm = true (characters measured as drawn) and a one-column blank: both are re-decided on the "
+              "regenerated tables on every run (genW_measures_as_drawn, genW_blank, gen_ok); wrapping with a "
+              "non-one-column cell on a displayed line that wraps is the KNOWN finding (correspondence + oracle only)")
+RULE = ("exhaustive: every text over {a, newline} (plus tab when a TabsProcessor is applied, plus blank when a "
+        "Show*WhiteSpace processor is applied) up to the tier's length bound x content widths 1..4 x heights 1..3 x "
+        "wrapping on/off x 14 window configurations (scroll offsets, previous scroll state, line prefixes of constant "
+        "and varying width, numbered margin, scroll callbacks, Tabs/BeforeInput/AfterInput/Password/ShowLeading/"
+        "ShowTrailing/restyling/Conditional/Dynamic/nested merged processors), each case rendering ALL cursor positions "
+        "one after the other through ONE window (scroll state carries over); a mouse family (4 configurations, every "
+        "cell of the window rectangle and one cell around it clicked in the last three states); an any-width family "
+        "over {a, double-width, combining accent, raw control character, newline} x widths x heights x wrap x 3 "
+        "configurations; then seeded random histories (1-8 states, lines of length k*w-1, k*w, k*w+1, up to 12 lines, "
+        "widths 1..9, heights 1..5, window size and wrap mode changing between states, random clicks and callback "
+        "values), a wide / zero-width sub-domain (also wide prompts and processor texts) and a raw control character "
+        "sub-domain; a case is non-trivial when some state has to scroll (text longer than one window row or more "
+        "lines than the height)")
 EXHAUSTIVE = True
 EXHAUSTIVE_SCOPE = {
-    "quick": "texts over {a,\\n} len<=4 (len<=5 plain configuration; {a,\\n,\\t} len<=3 with TabsProcessor) x w 1..4 x h 1..3 x "
-             "wrap x 11 configurations, all cursors",
-    "thorough": "texts over {a,\\n} len<=6 (len<=7 for 3 configurations; {a,\\n,\\t} len<=4 with TabsProcessor) x w 1..4 x "
-                "h 1..3 x wrap x 11 configurations, all cursors"}
+    "quick": "texts over {a,\\n} len<=4 (len<=5 plain configuration; {a,\\n,\\t} or {a,\\n,blank} len<=3 with Tabs / "
+             "white-space processors) x w 1..4 x h 1..3 x wrap x 14 configurations, all cursors; mouse: len<=3 x w 1..4 "
+             "x h 1..2 x wrap x 4 configurations, all cells clicked; any widths: texts over {a,wide,combining,^A,\\n} "
+             "len<=3 x w 1..3 x h 1..2 x wrap x 3 configurations, all cursors",
+    "thorough": "texts over {a,\\n} len<=6 (len<=7 for 3 configurations; len<=4 with TabsProcessor, len<=5 with "
+                "white-space processors) x w 1..4 x h 1..3 x wrap x 14 configurations, all cursors; mouse: len<=4; any "
+                "widths: len<=4 x w 1..4"}
 TRUSTED = ["harness/c11.py compares, after every Window.write_to_screen: vertical/horizontal/intra-line scroll, the "
            "content cursor, Screen.cursor_positions[window], render_info.visible_line_to_row_col and _rowcol_to_yx "
-           "(in insertion order) and every cell of the window body",
-           "Ptk/Model/C11.lean is a hand translation of the anchored layout code (correspondence-checked)",
+           "(in insertion order), the position maps of the cursor line, the columns that got the window's mouse "
+           "handler, every cell of the window body and of the numbered margin; after every click: the (row, col) the "
+           "window passes to the control and the resulting Buffer.cursor_position",
+           "Ptk/Model/C11.lean is a hand translation of the anchored layout code (correspondence-checked); the "
+           "functions it follows are listed in MODELLED and hash-pinned",
            "harness/gen_c11.py: get_cwidth / Char.display_mappings tables regenerated from the current tree, and "
-           "two behavioural probes of get_height_for_line (does the scroll code measure characters as drawn? does "
-           "it wrap non-1-column lines character by character?) that select the matching model variant"]
+           "three behavioural probes (does the scroll code measure characters as drawn? does get_height_for_line wrap "
+           "non-1-column lines character by character? is the mouse handler installed for the whole body next to a "
+           "left margin?) that select the matching model variant; the first is pinned by theorem "
+           "genW_measures_as_drawn, the display table by gen_ok"]
 ASSUMPTIONS = ["float: window_size / 2 is exact and int() truncates toward zero (|window_size| < 2^53)",
                "get_line_prefix returns plain text depending on (lineno == 0, wrap_count > 0) in the correspondence; "
-               "theorems: any prefix-width function with width < window width",
-               "no get_vertical_scroll / get_horizontal_scroll callbacks, align = LEFT, no menus / floats",
-               "theorems assume every cell is one column wide (get_cwidth = Char.width = 1)"]
-PARTIAL_SCOPE = ["wide and zero-width characters: correspondence + oracle only, the theorems about the code as it is "
-                 "assume one-column cells (KNOWN finding: the wrapped height estimate ignores the early wrapping of "
-                 "double-width characters; repair proposed_fixes/C11-wide-wrap-height.diff NOT applied, its model "
-                 "variant is proved exact for all cell widths in Props/C11Exact and would be selected by a probed flag)",
-                 "raw control characters (TAB without TabsProcessor, ^X): since fix 9db5f12 measured as drawn (2 cells); "
-                 "with wrapping they then share the double-width KNOWN finding; with a TabsProcessor tabs are covered "
-                 "by the theorems",
-                 "a zero-width character under the cursor has no cell of its own (KNOWN finding, own class)",
-                 "ShowLeading/TrailingWhiteSpaceProcessor, highlight processors (identity maps) not modelled",
-                 "NumberedMargin: only its width is modelled, not the margin text",
-                 "get_vertical_scroll / get_horizontal_scroll callbacks, align != LEFT, menus, floats not modelled"]
+               "theorems: any prefix function whose prefixes are narrower than the window and measured as drawn (no "
+               "control characters in prompts)",
+               "ShowTrailingWhiteSpaceProcessor looks at the LAST FRAGMENT, the model at the text: equal when it is "
+               "applied first (single lexer fragment), which is how the correspondence configures it",
+               "align = LEFT, no menus / floats, no right margins, cursorline / cursorcolumn (styles only) off",
+               "wrapping theorems for non-one-column cells assume the Regular-lines hypothesis (see PARTIAL_SCOPE); "
+               "mouse and injectivity theorems assume one-column cells"]
+PARTIAL_SCOPE = ["wrapping AND a double-width / zero-width / control character on a DISPLAYED line at or above the "
+                 "cursor that WRAPS (it does not fit on one row with its prefix): KNOWN finding -- get_height_for_line "
+                 "divides summed widths while copy_line wraps wide cells early; excluded by exactly this condition from "
+                 "wrap_cursor_in_window_partial (hypothesis Regular), Lean witnesses wide_wrap_loses_cursor, "
+                 "control_wrap_loses_cursor, wide_line_above_loses_cursor; correspondence + oracle only; repair "
+                 "proposed_fixes/C11-wide-wrap-height.diff NOT applied (its model variant is proved exact in "
+                 "Props/C11Exact and would be selected by a probed flag). Without wrapping, and with wrapping on "
+                 "Regular lines, wide / zero-width / control characters ARE covered by theorems",
+                 "a zero-width character under the cursor has no cell of its own (KNOWN finding, own class; "
+                 "zero_width_under_cursor_not_recorded); without wrapping its position is still recorded inside the window",
+                 "mouse: the window installs its handler only for x < xpos + width - (left + right margins): the "
+                 "rightmost columns of the body next to a LEFT margin get no handler (KNOWN finding, "
+                 "proposed_fixes/C11-mouse-region.diff, probed flag); click theorems are for one-column cells "
+                 "(with combining characters several (row, col) share a cell); SCROLL_UP / SCROLL_DOWN, MOUSE_UP / "
+                 "double click / drag selection not modelled",
+                 "NumberedMargin: rows proved for vertical_scroll_2 = 0 (with an over-tall cursor line the margin shows "
+                 "that line's number on the first row: correspondence only); relative numbers, tildes, ScrollbarMargin, "
+                 "PromptMargin, ConditionalMargin, right margins not modelled",
+                 "processors not modelled: HighlightSelection / DisplayMultipleCursors with an active selection / "
+                 "multiple cursors (they append one blank), HighlightSearch with a search text (restyle only), "
+                 "AppendAutoSuggestion (an AfterInput whose text depends on the cursor), ReverseSearchProcessor, ShowArg",
+                 "align != LEFT, dont_extend_width/height, ignore_content_width/height (preferred sizes only), windows "
+                 "of width/height 0 (nothing is rendered), content with zero lines (a BufferControl always has one), "
+                 "menus, floats not modelled"]
 
 
 # ------------------------------------------------------------------ real code
+def make_processor(p):
+    k = p[0]
+    if k == "T":
+        return TabsProcessor(tabstop=p[1], char1=p[2], char2=p[3])
+    if k == "B":
+        return BeforeInput(p[1])
+    if k == "A":
+        return AfterInput(p[1])
+    if k == "P":
+        return PasswordProcessor(char=p[1])
+    if k == "L":
+        return ShowLeadingWhiteSpaceProcessor(get_char=lambda c=p[1]: c)
+    if k == "R":
+        return ShowTrailingWhiteSpaceProcessor(get_char=lambda c=p[1]: c)
+    if k == "I":  # processors that only restyle
+        return [DummyProcessor, HighlightMatchingBracketProcessor, HighlightSearchProcessor,
+                HighlightSelectionProcessor][p[1] % 4]()
+    if k == "C":  # ["C", kind, enabled, inner]
+        inner = make_processor(p[3])
+        if p[1] == "cond":
+            return ConditionalProcessor(inner, Condition(lambda b=p[2]: b))
+        return DynamicProcessor(lambda b=p[2], inner=inner: inner if b else None)
+    if k == "M":  # nested merge_processors
+        return merge_processors(make_processors(p[1]))
+    raise ValueError(p)
+
+
 def make_processors(procs):
-    out = []
-    for p in procs:
-        k = p[0]
-        if k == "T":
-            out.append(TabsProcessor(tabstop=p[1], char1=p[2], char2=p[3]))
-        elif k == "B":
-            out.append(BeforeInput(p[1]))
-        elif k == "A":
-            out.append(AfterInput(p[1]))
-        elif k == "P":
-            out.append(PasswordProcessor(char=p[1]))
-        elif k == "L":
-            out.append(ShowLeadingWhiteSpaceProcessor(get_char=lambda c=p[1]: c))
-        elif k == "R":
-            out.append(ShowTrailingWhiteSpaceProcessor(get_char=lambda c=p[1]: c))
-        else:
-            raise ValueError(p)
-    return out
+    return [make_processor(p) for p in procs]
 
 
 _APP = None
@@ -138,6 +224,16 @@ class Rig:
                 return pre[0] if lineno == 0 else pre[1]
         so = case.get("so", [0, 0, 0, 0])
         self.control = BufferControl(self.buf, input_processors=make_processors(case.get("procs", [])))
+        # record what the window's mouse handler passes on to the control
+        self.clicked = None
+        inner = self.control.mouse_handler
+
+        def recording_mouse_handler(ev, inner=inner):
+            self.clicked = (ev.position.y, ev.position.x)
+            return inner(ev)
+
+        self.control.mouse_handler = recording_mouse_handler
+        cbs = case.get("cbs") or [False, False]
         self.win = Window(
             self.control,
             wrap_lines=Condition(lambda: self.cur["wrap"]),
@@ -145,7 +241,10 @@ class Rig:
             scroll_offsets=ScrollOffsets(top=so[0], bottom=so[1], left=so[2], right=so[3]),
             allow_scroll_beyond_bottom=bool(case.get("beyond", False)),
             get_line_prefix=glp,
+            get_vertical_scroll=(lambda w: self.cur["cb"][0]) if cbs[0] else None,
+            get_horizontal_scroll=(lambda w: self.cur["cb"][1]) if cbs[1] else None,
         )
+        self.mh = None
         self.app = shared_app()
         self.app.layout = Layout(self.win)
         self.app.render_counter += 1
@@ -160,11 +259,29 @@ class Rig:
         self.app.render_counter += 1
         sc = Screen()
         wp = WritePosition(self.case.get("xpos", 0), self.case.get("ypos", 0), step["w"], step["h"])
-        self.win.write_to_screen(sc, MouseHandlers(), wp, "", False, None)
+        self.mh = MouseHandlers()
+        self.win.write_to_screen(sc, self.mh, wp, "", False, None)
         return sc, wp
 
+    def handler_at(self, y, x):
+        """the mouse handler installed for the absolute screen cell (y, x), or None"""
+        row = self.mh.mouse_handlers.get(y)
+        h = row.get(x) if row is not None else None
+        return h if h is not None and h.__name__ != "dummy_callback" else None
 
-def run_case(case, fn):
+    def click(self, y, x):
+        """MOUSE_DOWN at the absolute screen cell (y, x): ((row, col) passed to the control, new cursor index),
+        or None when no handler of this window is installed there"""
+        h = self.handler_at(y, x)
+        if h is None:
+            return None
+        self.clicked = None
+        h(MouseEvent(position=Point(x=x, y=y), event_type=MouseEventType.MOUSE_DOWN,
+                     button=MouseButton.LEFT, modifiers=frozenset()))
+        return self.clicked, self.buf.cursor_position
+
+
+def run_case(case, fn, flat=False):
     """run fn(rig, step, screen, wp) after every render of the case, inside a running loop"""
     out = []
 
@@ -173,7 +290,11 @@ def run_case(case, fn):
         with set_app(rig.app):
             for step in case["ops"]:
                 sc, wp = rig.render(step)
-                out.append(fn(rig, step, sc, wp))
+                res = fn(rig, step, sc, wp)
+                if isinstance(res, list) and flat:
+                    out.extend(res)
+                else:
+                    out.append(res)
 
     asyncio.run(go())
     return out
@@ -210,31 +331,65 @@ def observe(rig, step, sc, wp):
     m = sum(len(t) for _, t, *_ in pl.fragments)
     d2s = [str(pl.display_to_source(j)) for j in range(m + 2)]
     toks.append("pm " + " ".join([str(len(s2d))] + s2d) + " dm " + " ".join([str(len(d2s))] + d2s))
+    # columns of the first window row that got this window's mouse handler
+    cols = [x for x in range(wp.xpos - 2, wp.xpos + wp.width + 2) if rig.handler_at(wp.ypos, x) is not None]
+    toks.append("mr " + (f"{min(cols)} {max(cols) + 1}" if cols else "E"))
     rows = []
     for y in range(wp.height):
         row = sc.data_buffer[yoff + y]
         rows.append(enc_row([row[xoff + x].char for x in range(max(cw, 0))]))
     toks.append(" ".join(rows))
-    return " ".join(toks)
+    # the cells of the numbered margin, row by row
+    mw = xoff - wp.xpos
+    if mw > 0:
+        for y in range(wp.height):
+            row = sc.data_buffer[yoff + y]
+            toks.append("m:" + ",".join(".".join(str(ord(c)) for c in row[wp.xpos + x].char) for x in range(mw)))
+    lines = [" ".join(toks)]
+    for (y, x) in step_clicks(step, wp):
+        r = rig.click(y, x)
+        lines.append("none" if r is None else f"{r[0][0]} {r[0][1]} {r[1]}")
+    return lines
+
+
+def step_clicks(step, wp):
+    """absolute (y, x) of the clicks of a step; "all" = every cell of the window rectangle plus one
+    column / row around it"""
+    cl = step.get("clicks")
+    if not cl:
+        return []
+    if cl == "all":
+        return [(wp.ypos + y, wp.xpos + x) for y in range(-1, wp.height + 1) for x in range(-1, wp.width + 1)
+                if wp.ypos + y >= 0 and wp.xpos + x >= 0]
+    return [(wp.ypos + y, wp.xpos + x) for y, x in cl if wp.ypos + y >= 0 and wp.xpos + x >= 0]
 
 
 def impl_lines(case):
     out = ["ok"]
-    out += run_case(case, observe)
+    out += run_case(case, observe, flat=True)
     return out
 
 
 # ------------------------------------------------------------------ model side
+def enc_proc(p):
+    k = p[0]
+    if k == "T":
+        return ["T", str(p[1]), str(ord(p[2])), str(ord(p[3]))]
+    if k in "BA":
+        return [k, enc_str(p[1])]
+    if k in "PLR":
+        return [k, str(ord(p[1]))]
+    if k == "I":
+        return ["I"]
+    if k == "C":
+        return ["C", "1" if p[2] else "0"] + enc_proc(p[3])
+    if k == "M":
+        return ["M", str(len(p[1]))] + [t for q in p[1] for t in enc_proc(q)]
+    raise ValueError(p)
+
+
 def enc_procs(procs):
-    toks = [str(len(procs))]
-    for p in procs:
-        if p[0] == "T":
-            toks += ["T", str(p[1]), str(ord(p[2])), str(ord(p[3]))]
-        elif p[0] in "BA":
-            toks += [p[0], enc_str(p[1])]
-        else:
-            toks += [p[0], str(ord(p[1]))]
-    return " ".join(toks)
+    return " ".join([str(len(procs))] + [t for p in procs for t in enc_proc(p)])
 
 
 def model_lines(case):
@@ -245,32 +400,58 @@ def model_lines(case):
         str(case.get("xpos", 0)), str(case.get("ypos", 0)),
         " ".join(str(x) for x in so), "1" if case.get("beyond") else "0",
         "1" if case.get("margin") else "0",
-        ("1 " + " ".join(enc_str(p) for p in pre)) if pre is not None else "0 s: s: s:",
-        enc_procs(case.get("procs", []))])
+        ("1 " + " ".join(enc_str(p) for p in pre)) if pre is not None else "0 s: s: s:"])
+    procs = enc_procs(case.get("procs", []))
+    cbs = case.get("cbs") or [False, False]
     out = [f"init {init[0]} {init[1]} {init[2]}"]
     for st in case["ops"]:
-        out.append(f"render {st['w']} {st['h']} {'1' if st['wrap'] else '0'} {cfg} {enc_str(st['text'])} {st['cur']}")
+        cb = st.get("cb") or [None, None]
+        cbt = " ".join(str(cb[i]) if cbs[i] else "N" for i in (0, 1))
+        out.append(f"render {st['w']} {st['h']} {'1' if st['wrap'] else '0'} {cfg} {cbt} {procs} "
+                   f"{enc_str(st['text'])} {st['cur']}")
+        wp = WritePosition(case.get("xpos", 0), case.get("ypos", 0), st["w"], st["h"])
+        for (y, x) in step_clicks(st, wp):
+            out.append(f"click {y} {x}")
     return out
 
 
 # ------------------------------------------------------------------ oracle
+def flat_procs(procs):
+    """the processors that are actually applied, in order (enabled conditional / dynamic ones unwrapped,
+    nested merges spliced in)"""
+    out = []
+    for p in procs:
+        if p[0] == "C":
+            if p[2]:
+                out += flat_procs([p[3]])
+        elif p[0] == "M":
+            out += flat_procs(p[1])
+        else:
+            out.append(p)
+    return out
+
+
 def expected_char(case, text, cur):
     """what the cell under the cursor must show: the character under the cursor, or the blank
     after the line end -- seen through the configured processors applied in order (a tab becomes
     the first tab cell, PasswordProcessor masks what is there, AfterInput text starts where the
-    last line ends); control characters are shown through Char.display_mappings."""
+    last line ends, a blank may be shown by the Show*WhiteSpace character); control characters are
+    shown through Char.display_mappings."""
     ch = text[cur] if cur < len(text) and text[cur] != "\n" else None
     last_line = "\n" not in text[cur:]
-    for p in case.get("procs", []):
+    alts = set()
+    for p in flat_procs(case.get("procs", [])):
         if p[0] == "T" and ch == "\t":
             ch = p[2]
         elif p[0] == "P" and ch is not None:
             ch = p[1]
         elif p[0] == "A" and ch is None and last_line and p[1]:
             ch = p[1][0]
+        elif p[0] in "LR" and ch == " ":
+            alts.add(p[1])
     if ch is None:
         ch = " "
-    return {Char.display_mappings.get(ch, ch)}
+    return {Char.display_mappings.get(c, c) for c in {ch} | alts}
 
 
 def zero_width_under_cursor(text, cur):
@@ -278,21 +459,58 @@ def zero_width_under_cursor(text, cur):
     return under not in "\n\t" and get_cwidth(under) == 0 and under not in Char.display_mappings
 
 
-def sig_class(case, step, text, cur):
+def drawn_width(ch):
+    """columns the screen cell of `ch` takes (Char.width)"""
+    return get_cwidth(Char.display_mappings.get(ch, ch))
+
+
+def irregular_lines(rig, step):
+    """The region EXCLUDED by the theorem wrap_cursor_in_window_partial, evaluated on the real objects:
+    content lines between the (new) top of the window and the cursor line that contain a cell that is
+    not one column wide AND do not fit on one row together with their prefix (they wrap).
+    Returns the list of (lineno, has_control_character)."""
+    win = rig.win
+    ri = win.render_info
+    uc = ri.ui_content
+    out = []
+    for l in range(max(0, win.vertical_scroll), uc.cursor_position.y + 1):
+        line = "".join(t for _, t, *_ in uc.get_line(l))
+        ws = [drawn_width(ch) for ch in line]
+        if all(w == 1 for w in ws):
+            continue
+        pw = 0
+        if win.get_line_prefix is not None:
+            pw = sum(drawn_width(ch) for ch in win.get_line_prefix(l, 0))
+        if pw + sum(ws) <= ri.window_width:
+            continue
+        out.append((l, any((ord(ch) < 32 or 127 <= ord(ch) < 160) for ch in line)))
+    return out
+
+
+def sig_class(case, step, text, cur, rig=None):
+    """condition class of a violation.  The two KNOWN classes ("wide or zero-width characters",
+    "control characters shown as ^X") are reported only inside the region the theorems exclude: wrapping
+    on and a displayed line at or above the cursor that has a non-one-column cell and wraps.  Everything
+    else (no wrapping with any character widths; wrapping with regular lines) is inside the proved region
+    and gets a class that no known finding matches."""
     if zero_width_under_cursor(text, cur):
         # a combining character has no cell of its own (it is merged into the previous cell)
         return "zero-width character under the cursor"
     wide = any(get_cwidth(ch) != 1 for ch in text if ch not in "\n\t") or \
         any(get_cwidth(ch) != 1 for p in (case.get("prefix") or []) for ch in p) or \
-        any(get_cwidth(ch) != 1 for p in case.get("procs", []) for a in p[1:] if isinstance(a, str) for ch in a)
+        any(get_cwidth(ch) != 1 for p in flat_procs(case.get("procs", [])) for a in p[1:] if isinstance(a, str)
+            for ch in a)
     ctrl = any((ord(ch) < 32 or 127 <= ord(ch) < 160) and ch != "\n" for ch in text)
-    has_tabs_proc = any(p[0] == "T" for p in case.get("procs", []))
-    if ctrl and not (has_tabs_proc and all(ch == "\t" or not (ord(ch) < 32 or 127 <= ord(ch) < 160)
-                                           for ch in text if ch != "\n")):
-        return "control characters shown as ^X"
-    if wide:
-        return "wide or zero-width characters"
-    return "width-1 characters"
+    has_tabs_proc = any(p[0] == "T" for p in flat_procs(case.get("procs", [])))
+    ctrl = ctrl and not (has_tabs_proc and all(ch == "\t" or not (ord(ch) < 32 or 127 <= ord(ch) < 160)
+                                               for ch in text if ch != "\n"))
+    if not (wide or ctrl):
+        return "width-1 characters"
+    if step["wrap"] and rig is not None:
+        irr = irregular_lines(rig, step)
+        if irr:
+            return "control characters shown as ^X" if any(c for _, c in irr) else "wide or zero-width characters"
+    return "wide / zero-width / control characters inside the proved region"
 
 
 def check_render(rig, step, sc, wp):
@@ -301,7 +519,7 @@ def check_render(rig, step, sc, wp):
     win = rig.win
     ri = win.render_info
     text, cur = step["text"], step["cur"]
-    cls = sig_class(case, step, text, cur)
+    cls = sig_class(case, step, text, cur, rig)
     mode = "wrap" if step["wrap"] else "nowrap"
 
     def bad(site, cond, msg):
@@ -336,9 +554,27 @@ def check_render(rig, step, sc, wp):
     exp = expected_char(case, text, cur)
     if zero_width_under_cursor(text, cur):
         pass  # a zero-width (combining) character has no cell of its own: not asserted
-    elif cell not in exp and not (cell[:1] in exp and all(get_cwidth(c) == 0 for c in cell[1:])):
+    elif cell not in exp and not any(cell.startswith(e) and all(drawn_width(c) == 0 for c in cell[len(e):])
+                                     for e in exp):
+        # (a cell may show its character followed by combining characters merged into it)
         bad("Window._copy_body", f"{mode}, {cls}: cursor not on its character",
             f"cell under the cursor shows {cell!r}, expected one of {sorted(exp)}")
+    # (3b) mouse: MOUSE_DOWN on the cell where the cursor was drawn is passed on as the cursor's content
+    #      position and leaves the cursor index where it is (inverse of the placement)
+    if not zero_width_under_cursor(text, cur):
+        if rig.handler_at(cp.y, cp.x) is None:
+            bad("Window._write_to_screen_at_index",
+                "mouse region: body cell without handler" + (" (left margin)" if case.get("margin") else ""),
+                f"no mouse handler installed for the cursor cell {cp} although it is inside the window body "
+                f"[{xoff}, {xoff + cw})")
+        else:
+            got = rig.click(cp.y, cp.x)
+            if got[0] != key:
+                bad("Window.mouse_handler", f"{mode}, {cls}: click on the cursor cell maps to another position",
+                    f"click on {cp} passed on as (row, col)={got[0]}, the cursor is at {key}")
+            elif got[1] != cur:
+                bad("BufferControl.mouse_handler", f"{cls}: click on the cursor cell moves the cursor",
+                    f"click on {cp} -> (row, col)={got[0]} -> index {got[1]}, expected {cur}")
     # (4) the screen row of the cursor belongs to the cursor's document line
     vl = ri.visible_line_to_row_col
     if vl.get(cp.y - yoff, (None, None))[0] != row:
@@ -355,6 +591,20 @@ def check_render(rig, step, sc, wp):
         for a, b in zip(shown, shown[1:]):
             if b - a not in ((0, 1) if step["wrap"] else (1,)):
                 bad("Window._copy_body", f"{mode}, {cls}: rows not consecutive", f"rows {shown}")
+                break
+    # (5b) numbered margin: margin row y shows lineno + 1 on the first screen row of a document line and
+    #      nothing on wrapped continuation rows / below the content (stated for vertical_scroll_2 == 0)
+    mw = xoff - wp.xpos
+    if case.get("margin") and mw > 0 and win.vertical_scroll_2 == 0:
+        for yy in range(h):
+            shown = "".join(sc.data_buffer[yoff + yy][wp.xpos + x].char for x in range(mw)).strip()
+            ent = vl.get(yy)
+            want = ""
+            if ent is not None and (yy == 0 or vl.get(yy - 1, (None, None))[0] != ent[0]):
+                want = str(ent[0] + 1)
+            if shown != want:
+                bad("NumberedMargin.create_margin", f"{mode}: margin row does not show the document row displayed",
+                    f"margin row {yy} shows {shown!r}, screen row {yy} shows document line {ent}, expected {want!r}")
                 break
     # (6) column maps of the cursor line
     pl = rig.control._last_get_processed_line(row)
@@ -401,6 +651,19 @@ CFGS = [
     {"procs": [["T", 2, "|", "-"], ["B", "$"]], "so": [0, 1, 1, 0], "prefix": ["", "", "+"]},
     {"procs": [["P", "*"], ["A", "<<"]], "init": [1, 1, 1]},
     {"so": [3, 3, 3, 3], "init": [7, 9, 4], "margin": True, "prefix": [":", ":", ":"]},
+    {"cbs": [True, True], "cbval": [2, 3], "so": [0, 1, 1, 0]},
+    {"procs": [["R", "~"], ["L", "_"], ["I", 1], ["C", "cond", True, ["B", ">"]], ["C", "dyn", False, ["P", "*"]]]},
+    {"procs": [["M", [["B", "$ "], ["M", [["T", 3, "|", "."], ["I", 2]]]]], ["C", "dyn", True, ["A", "<"]]],
+     "so": [1, 0, 0, 1]},
+]
+# alphabet of the configurations with white-space processors
+ALPHA_SP = ["a", "\n", " "]
+# configurations of the exhaustive mouse family (every cell of the window is clicked)
+MOUSE_CFGS = [
+    {},
+    {"margin": True, "xpos": 2, "ypos": 1, "so": [1, 0, 0, 1]},
+    {"procs": [["B", "> "], ["T", 3, "|", "-"]], "prefix": ["", ".", "+"]},
+    {"procs": [["T", 2, "|", "-"], ["A", "<"]], "init": [1, 2, 1], "xpos": 1},
 ]
 
 
@@ -411,11 +674,18 @@ def extra_width(cfg, nlines=1):
     return pw + mw
 
 
-def sweep_case(cfg, text, w, h, wrap):
+def sweep_case(cfg, text, w, h, wrap, clicks=False):
     n = len(text)
     tw = w + extra_width(cfg, text.count("\n") + 1)
     curs = list(range(n + 1)) + [0, n, n // 2]
-    return dict(cfg, ops=[{"text": text, "cur": c, "w": tw, "h": h, "wrap": wrap} for c in curs])
+    ops = [{"text": text, "cur": c, "w": tw, "h": h, "wrap": wrap} for c in curs]
+    if cfg.get("cbval"):
+        for st in ops:
+            st["cb"] = cfg["cbval"]
+    if clicks:  # click every cell of the window (and one around it) in the last three states
+        for st in ops[-3:]:
+            st["clicks"] = "all"
+    return dict({k: v for k, v in cfg.items() if k != "cbval"}, ops=ops)
 
 
 def boundary_text(rng, w, alpha):
@@ -429,19 +699,28 @@ def boundary_text(rng, w, alpha):
     return "\n".join(lines)
 
 
-RAND_CFG_PROCS = [[], [], [["T", 4, "|", "."]], [["T", 1, "|", "."]], [["B", ">> "]], [["B", "> "], ["T", 3, "|", "-"]],
+RAND_CFG_PROCS = [[["R", "~"], ["L", "_"], ["B", "> "]], [["L", "."], ["C", "cond", True, ["T", 4, "|", "-"]], ["I", 3]],
+                  [["M", [["B", "ab"], ["T", 2, ">", " "]]], ["C", "dyn", False, ["B", "zzz"]], ["M", []], ["M", [["P", "*"]]]],
+                  [["C", "cond", False, ["T", 4, "|", "."]], ["I", 0], ["C", "dyn", True, ["M", [["B", "> "], ["L", "_"]]]]],
+                  [], [], [["T", 4, "|", "."]], [["T", 1, "|", "."]], [["B", ">> "]], [["B", "> "], ["T", 3, "|", "-"]],
                   [["T", 8, ">", " "], ["B", "$"]], [["A", "<<"]], [["P", "*"]], [["B", "a"], ["B", "bc"], ["T", 5, "|", "."]],
                   [["A", "!"], ["T", 4, "|", "."], ["P", "#"]]]
+WIDE_PREFIX = [["世", "> ", "."], ["丁 ", "丁 ", "丁 "]]
+WIDE_PROCS = [[["B", "世"]], [["A", "丁́"]], [["B", "é"], ["T", 4, "世", "."]]]
+WIDE_ALPHA = ["a", "世", "́", "\x01", "\n"]
+WIDE_CFGS = [{}, {"so": [1, 1, 1, 1], "init": [2, 3, 1]}, {"prefix": ["世", ">", "."], "so": [0, 0, 1, 0]}]
 RAND_PREFIX = [None, None, None, ["> ", ". ", ". "], ["", "", "-"], [">>", "", ""], [">", "..", "+"], ["abc", "abc", "abc"]]
 
 
-def random_case(rng, alpha, tab_always=False):
+def random_case(rng, alpha, tab_always=False, wide_cfg=False):
     cfg = {"so": [rng.choice([0, 0, 1, 2, 3, 9]) for _ in range(4)],
            "init": rng.choice([None, None, [rng.randrange(15), rng.randrange(15), rng.randrange(6)]]),
-           "prefix": rng.choice(RAND_PREFIX), "margin": rng.random() < 0.3,
-           "procs": rng.choice(RAND_CFG_PROCS), "beyond": rng.random() < 0.3,
+           "prefix": rng.choice(RAND_PREFIX + (WIDE_PREFIX if wide_cfg else [])), "margin": rng.random() < 0.3,
+           "procs": rng.choice(RAND_CFG_PROCS + (WIDE_PROCS if wide_cfg else [])), "beyond": rng.random() < 0.3,
            "xpos": rng.choice([0, 0, 3]), "ypos": rng.choice([0, 0, 2])}
-    if tab_always and not any(p[0] == "T" for p in cfg["procs"]):
+    if rng.random() < 0.2:
+        cfg["cbs"] = rng.choice([[True, False], [False, True], [True, True]])
+    if tab_always and not any(p[0] == "T" for p in flat_procs(cfg["procs"])):
         cfg["procs"] = cfg["procs"] + [["T", rng.choice([1, 2, 4, 8]), "|", "."]]
     w = rng.randrange(1, 10)
     h = rng.randrange(1, 6)
@@ -467,7 +746,12 @@ def random_case(rng, alpha, tab_always=False):
             cur = min(n, s0 + w * rng.randrange(0, 4))
             if "\n" in text[s0:cur]:
                 cur = s0
-        steps.append({"text": text, "cur": cur, "w": w + extra_width(cfg, text.count("\n") + 1), "h": h, "wrap": wrap})
+        st = {"text": text, "cur": cur, "w": w + extra_width(cfg, text.count("\n") + 1), "h": h, "wrap": wrap}
+        if cfg.get("cbs"):
+            st["cb"] = [rng.choice([-2, 0, 1, 3, 14]), rng.choice([-2, 0, 1, 3, 14])]
+        if rng.random() < 0.3:
+            st["clicks"] = [[rng.randrange(-1, h + 1), rng.randrange(-1, st["w"] + 1)] for _ in range(3)]
+        steps.append(st)
     cfg["ops"] = steps
     return cfg
 
@@ -476,12 +760,14 @@ def cases(tier, rng):
     quick = tier == "quick"
     # exhaustive small scope
     for ci, cfg in enumerate(CFGS):
-        has_tabs = any(p[0] == "T" for p in cfg.get("procs", []))
-        alpha = ALPHA if has_tabs else ALPHA[:2]
+        fp = flat_procs(cfg.get("procs", []))
+        has_tabs = any(p[0] == "T" for p in fp)
+        has_ws = any(p[0] in "LR" for p in fp)
+        alpha = (ALPHA if has_tabs else ALPHA[:2]) + ([" "] if has_ws else [])
         if quick:
-            maxlen = 3 if has_tabs else (5 if ci == 0 else 4)
+            maxlen = 3 if (has_tabs or has_ws) else (5 if ci == 0 else 4)
         else:
-            maxlen = 4 if has_tabs else (7 if ci in (0, 1, 2) else 6)
+            maxlen = 4 if has_tabs else (5 if has_ws else (7 if ci in (0, 1, 2) else 6))
         for n in range(maxlen + 1):
             for tup in itertools.product(alpha, repeat=n):
                 text = "".join(tup)
@@ -489,12 +775,36 @@ def cases(tier, rng):
                     for h in range(1, 4):
                         for wrap in (True, False):
                             yield sweep_case(cfg, text, w, h, wrap)
+    # exhaustive mouse family: every cell of the window rectangle clicked (width-1 characters)
+    for cfg in MOUSE_CFGS:
+        has_tabs = any(p[0] == "T" for p in flat_procs(cfg.get("procs", [])))
+        alpha = ALPHA if has_tabs else ALPHA[:2]
+        for n in range((3 if quick else 4) + 1):
+            for tup in itertools.product(alpha, repeat=n):
+                text = "".join(tup)
+                for w in range(1, 5):
+                    for h in (1, 2):
+                        for wrap in (True, False):
+                            c = sweep_case(cfg, text, w, h, wrap, clicks=True)
+                            c["sub"] = "mouse-exhaustive"
+                            yield c
+    # exhaustive small scope, ANY cell widths: double-width, combining (zero-width), raw control character
+    for cfg in WIDE_CFGS:
+        for n in range((3 if quick else 4) + 1):
+            for tup in itertools.product(WIDE_ALPHA, repeat=n):
+                text = "".join(tup)
+                for w in range(1, 4 if quick else 5):
+                    for h in (1, 2):
+                        for wrap in (True, False):
+                            c = sweep_case(cfg, text, w, h, wrap)
+                            c["sub"] = "wide-exhaustive"
+                            yield c
     # random histories: width-1 characters (tabs always through a TabsProcessor)
     for _ in range(1200 if quick else 9000):
         yield random_case(rng, ["a", "b", "c", " ", "\t"], tab_always=True)
     # wide / zero-width sub-domain
     for _ in range(300 if quick else 2500):
-        c = random_case(rng, ["a", "b", " ", "世", "丁", "ｗ", "́", "é", "\t"], tab_always=True)
+        c = random_case(rng, ["a", "b", " ", "世", "丁", "ｗ", "́", "é", "\t"], tab_always=True, wide_cfg=True)
         c["sub"] = "wide"
         yield c
     # raw control characters (no TabsProcessor guaranteed)
@@ -526,7 +836,7 @@ def distribution(cases):
     d = {"states": 0, "sub": {}, "wrap": {"on": 0, "off": 0}, "width": {}, "height": {}, "lines": {}, "cfg": {}}
     for c in cases:
         d["sub"][c.get("sub", "width-1")] = d["sub"].get(c.get("sub", "width-1"), 0) + 1
-        for k in ("prefix", "margin", "procs", "beyond", "init"):
+        for k in ("prefix", "margin", "procs", "beyond", "init", "cbs"):
             if c.get(k):
                 d["cfg"][k] = d["cfg"].get(k, 0) + 1
         if any(c.get("so", [0])):
